@@ -323,6 +323,32 @@ def fork_call(fn, args=(), timeout=120.0):
         return ("crash", "bad pickle (%d bytes), wait status %r" % (len(data), st))
 
 
+def fork_map(fn, arglist, procs=8, timeout=1800.0):
+    """Run fn(*args) for every args in arglist, each in its own fork, at most `procs` at a
+    time; results in input order as (status, payload) like fork_call."""
+    import threading
+
+    results = [None] * len(arglist)
+    lock = threading.Lock()
+    nxt = [0]
+
+    def pump():
+        while True:
+            with lock:
+                i = nxt[0]
+                nxt[0] += 1
+            if i >= len(arglist):
+                return
+            results[i] = fork_call(fn, arglist[i], timeout=timeout)
+
+    threads = [threading.Thread(target=pump) for _ in range(max(1, min(procs, len(arglist))))]
+    for t in threads:
+        t.start()
+    for t in threads:
+        t.join()
+    return results
+
+
 # --------------------------------------------------------------------------------------
 # the worker pool
 # --------------------------------------------------------------------------------------
@@ -587,7 +613,7 @@ def write_evidence(prop, tier, seed, level, coverage, assumptions, wall_s, viola
 # --------------------------------------------------------------------------------------
 # the check driver
 # --------------------------------------------------------------------------------------
-def run_check(engine, tier, max_minimise=4):
+def run_check(engine, tier, max_minimise=12):
     """Run one property's campaign and report per the interface.  Returns the exit code."""
     t0 = time.time()
     seed = verif_seed()
@@ -611,20 +637,27 @@ def run_check(engine, tier, max_minimise=4):
         print("KNOWN-FINDING: property=%s class=%s site=%s -- %s (seen in %d runs)" % (
             prop, k[0], k[1], known[k].get("what", ""), len(by_key[k])))
     replay_paths = []
-    for n, k in enumerate(new_keys):
+
+    def _minimise_one(n, k):
         rec, v = by_key[k][0]
         plan = rec["plan"]
-        if n < max_minimise:
-            best, used = minimise(engine, plan, k)
-        else:
-            best, used = plan, 0
+        best, used = minimise(engine, plan, k) if n < max_minimise else (plan, 0)
         status, res = fork_call(engine.execute, (best, False))
         if status != "ok" or not any(vkey(x) == k for x in res["violations"]):
             best, used = plan, 0
             status, res = fork_call(engine.execute, (best, False))
             if status != "ok":
                 res = None
-        path = write_replay(prop, best, k, res, minimised_from=engine.size(plan), execs=used)
+        return best, used, res, engine.size(plan)
+
+    mins = fork_map(_minimise_one, [(n, k) for n, k in enumerate(new_keys)], procs=6, timeout=3600.0)
+    for k, (status, payload) in zip(new_keys, mins):
+        rec, v = by_key[k][0]
+        if status == "ok":
+            best, used, res, size0 = payload
+        else:
+            best, used, res, size0 = rec["plan"], 0, None, engine.size(rec["plan"])
+        path = write_replay(prop, best, k, res, minimised_from=size0, execs=used)
         replay_paths.append(path)
         note = ""
         if k in fixed:
